@@ -190,6 +190,7 @@ namespace fsw
         // position that may be out of range under the C02 workload
         size_t pos_any(uint64_t raw, size_t len) const
         {
+            if (mode == M_C01 && Throwing && ((raw >> 40) & 15) == 15) { SIM_PROBE("bad_position_under_C01"); return (raw >> 39) & 1 ? len + 1 : npos; }
             if (mode != M_C02) return pos_in(raw, len);
             unsigned sel = static_cast<unsigned>(raw % 10); raw /= 10;
             if (sel < 6) return pos_in(raw, len);
@@ -320,7 +321,10 @@ namespace fsw
             catch (const std::length_error&) { expect = E_LEN; }
             size_t need = std::max(trial.size(), mr.has_str ? mr.s16.size() : size_t(0));
             if (expect == E_OK && need > N) expect = E_LEN;
-            if (expect != E_OK && !(mode == M_C02 && Throwing)) { skip(expect == E_LEN ? "over_capacity" : "bad_position"); return; }
+            // a bad position is rejected by std::basic_string too (out_of_range), so under the throwing policy it belongs to the
+            // refinement property as well; exceeding the capacity is the containment property's business only
+            bool executable = Throwing && (mode == M_C02 || (mode == M_C01 && expect == E_OOR && trial.size() <= N));
+            if (expect != E_OK && !executable) { skip(expect == E_LEN ? "over_capacity" : "bad_position"); return; }
             size_t add = last_add;
             Exc got = E_OK;
             Ret xr;
@@ -338,7 +342,7 @@ namespace fsw
                 bool both = expect == E_OOR && got == E_LEN && model[s].size() + add > N;
                 if (!both)
                 {
-                    const char* owner = (expect == E_OK) ? "C01" : "C02";
+                    const char* owner = (expect == E_OK) ? "C01" : (expect == E_OOR ? prop : "C02");
                     viol(owner, "exception", "exc", std::string("expected ") + exc_name(expect) + ", got " + exc_name(got) +
                          (what.empty() ? "" : " (" + what + ")") + "; target before the call " + show(model[s]));
                 }
@@ -590,7 +594,12 @@ namespace fsw
             bool is_at = v <= 2;
             if (!is_at && v >= 6 && len == 0) { skip("empty_front_back"); return; }
             size_t idx;
-            if (is_at) { if (mode == M_C02) idx = pos_any(st.a, len); else { if (len == 0) { skip("empty_at"); return; } idx = static_cast<size_t>(st.a % len); } }
+            if (is_at)
+            {
+                if (mode == M_C02) idx = pos_any(st.a, len);
+                else if (mode == M_C01 && Throwing && (st.a & 7) == 7) { idx = len + ((st.a >> 3) & 1); SIM_PROBE("bad_position_under_C01"); }    // at(size()) and at(size()+1) throw
+                else { if (len == 0) { skip("empty_at"); return; } idx = static_cast<size_t>(st.a % len); }
+            }
             else if (v == 3 || v == 5) idx = pos_in(st.a, len);           // reading s[size()] is allowed
             else { if (len == 0) { skip("empty_index_write"); return; } idx = static_cast<size_t>(st.a % len); }
             CT ch = mkch(st.b, LAYOUT != L_STRLEN);
